@@ -108,6 +108,22 @@ def force_ieee():
     BL._PYTYPE_TO_WRAPPER_TYPE[float] = ((BL.PreciseIeeeSymbolicFloat, 1.0),)
 
 
+def install_state_reset():
+    """before every CrossHair iteration, put module-/class-level containers of the pyrtma modules back to what they held
+    when the analysis started (engine/statereset.py): executions stay independent of each other even if the code under
+    analysis keeps a cache outside the state the harness builds"""
+    import crosshair.core as core
+    from engine import statereset
+
+    orig = core.attempt_call
+
+    def attempt_call(*a, **kw):
+        statereset.restore()
+        return orig(*a, **kw)
+
+    core.attempt_call = attempt_call
+
+
 _solver = {"calls": 0, "s": 0.0}
 _installed = False
 
@@ -143,12 +159,15 @@ def analyze(modname, fname, cond_timeout, path_timeout, flags=()):
             force_ieee()
         install_attr_patches()
         time_solver()
+        install_state_reset()
         _installed = True
     c0, s0 = _solver["calls"], _solver["s"]
     seed = int(os.environ.get("VERIF_SEED", "0") or 0)
     random.seed(seed)
     mod = importlib.import_module(modname)
     fn = getattr(mod, fname)
+    from engine import statereset
+    statereset.snapshot()
     stats = collections.Counter()
     opts = AnalysisOptionSet(
         per_condition_timeout=cond_timeout,
